@@ -172,8 +172,10 @@ func (fr *Frame) execInstr(ins ssa.Instruction, c *blockCtx) {
 	case *ssa.Call:
 		res := fr.execCall(ins, &ins.Call, c)
 		fr.bindCallResults(ins, res)
-		for _, a := range ins.Call.Args {
-			fr.syncArrView(a, c.st) // a callee may have written through a slice view of a local array
+		if _, isBuiltin := ins.Call.Value.(*ssa.Builtin); !isBuiltin {
+			for _, a := range ins.Call.Args {
+				fr.syncArrView(a, c.st) // a callee may have written through a slice view of a local array
+			}
 		}
 	case *ssa.Defer:
 		fr.execDefer(ins, c)
